@@ -16,6 +16,7 @@ import r_absint
 import r_step
 import r_peek
 import r_nan
+import r_winv
 
 
 def _sets(quick, thorough=None):
@@ -178,7 +179,7 @@ PROPS = {
     'C10': dict(
         rules=[r_init.s12_validate_dominates_init,
                lambda ctx: r_absint.a01_constructors(ctx, groups=('method-new', 'ma-init', 'config-init', 'config-validate', 'config-set', 'parser'), min_entries=165),
-               r_absint.a01c_too_small, r_absint.a02_next_with_facts, r_counters.s08b_bounded_panicking_counters],
+               r_absint.a01c_too_small, r_winv.a04_window_invariant, r_absint.a02_next_with_facts, r_counters.s08b_bounded_panicking_counters],
         feature_sets=_sets(['default']),
         explanation=('(S12) in every IndicatorConfig::init (37), each construction of Ok(instance) is dominated by the true branch of a '
                      'test on self.validate(), the false branch reaches no Ok, and the configuration is not written afterwards: init '
@@ -187,12 +188,13 @@ PROPS = {
                      'unconstrained (all 256 values at once, all MA kinds), floats and strings top: every overflow check, bounds check, '
                      'division check, assert!/debug_assert!/panic!/unwrap reachable from them is refuted, or reported. (A01c) with a length '
                      'pinned to a value its doc comment calls too small the abstract return is exactly {Err}. (A02) next() is interpreted '
-                     'from the joined Ok-state of init()/new() with all non-invariant fields forgotten: no empty-window push, window index '
-                     'out of range or overflow in pure configuration arithmetic is reachable. (S08b) narrow state counters incremented with '
+                     'from the joined Ok-state of init()/new() with all non-invariant fields forgotten and every Window re-normalised to the '
+                     'representation invariant that (A04) proves inductive: no empty-window push, no ring-buffer bounds or overflow check, no '
+                     'window index out of range and no overflow in pure configuration arithmetic is reachable. (S08b) narrow state counters incremented with '
                      'overflow-checked arithmetic in next() are clamped by a comparison-guarded reset (else a long stream panics).'),
         not_decided=['panics in next() that depend on stream values or accumulated state (listed in the evidence under '
-                     'next_panic_sites_not_decided: ring-buffer bounds checks, age counters, float assertions on inputs): they need loop / '
-                     'float / representation invariants and are not decided',
+                     'next_panic_sites_not_decided: age / position counters of individual methods, SMM slice indices, float assertions on inputs): '
+                     'they need per-method loop or float invariants and are not decided',
                      'allocation failure and stack overflow are outside the property'],
         assumptions=TRUST,
         technique='static analysis: abstract interpretation (intervals x relations x variant sets over MIR) + dominator rule on init()',
@@ -200,7 +202,7 @@ PROPS = {
                     'over-approximation: an unrefuted panic site is reported); next() only for configuration-determined panics.'),
     ),
     'C19': dict(
-        rules=[r_unsafe.s20_unsafe_twins],
+        rules=[r_unsafe.s20_unsafe_twins, r_winv.a04_window_invariant],
         feature_sets=_sets(['default', 'unsafe']),
         build_failure_is_violation=True,
         explanation=('Structural bisimulation between the default and unsafe_performance builds of the same working tree: (1) same items; '
@@ -211,7 +213,8 @@ PROPS = {
                      '(4) the one non-twin diamond (SMM::next) is reduced by affine-form evaluation with a case split on the order of '
                      '(index, old_index) to equal block moves (src,dst,count) and the same single store. By induction over any call '
                      'sequence on which the default build does not panic, both builds are in equal states, the checked access passed its '
-                     'bounds check, hence the unchecked access is in bounds and returns the same reference.'),
+                     'bounds check, hence the unchecked access is in bounds and returns the same reference. (A04) independently of that argument, the '
+                     'inductive representation invariant of Window shows every index handed to get_unchecked in window.rs is < buf.len on a non-empty window.'),
         not_decided=['nothing of the statement beyond the trusted base (documented contracts of get_unchecked, ptr::copy, copy_within)'],
         assumptions=TRUST + ['contracts of slice::get_unchecked(_mut), ptr::copy (memmove) and slice::copy_within as documented by std'],
         technique='static analysis: two-build MIR diff, unsafe-site confinement, twin matching on HIR, affine-form block-move equivalence',
@@ -239,7 +242,7 @@ PROPS = {
                     'enumerated and each is classified. Numeric equalities for long windows / f32 are not claimed.'),
     ),
     'C01': dict(
-        rules=[r_window.s01_iterator_discipline, r_window.s01c_single_slot_mapping, r_window.s03_sibling_constructors,
+        rules=[r_window.s01_iterator_discipline, r_window.s01c_single_slot_mapping, r_window.s03_sibling_constructors, r_winv.a04_window_invariant,
                lambda ctx: r_serde.s02_manual_serde_tables(ctx, only=('Window',)),
                lambda ctx: r_absint.a01_constructors(ctx, groups=('window-ctor', 'deserialize'), labels=('Window',), rule_id='A01w', min_entries=6,
                    title='Window::{new, from_parts, empty, From<Vec>, From<Box<[T]>>} and Window::deserialize: every reachable panic is one the constructor documents (# Panics); deserialize reaches none')],
@@ -251,9 +254,12 @@ PROPS = {
                      'never yields. (S01c) get and Index::index obtain their slot from the one mapping slice_index(own index). (S03) new / from_parts / '
                      'empty agree on the derived fields: s_1 = size.saturating_sub(1), buffer length = size. (S02) Window\'s hand-written '
                      'Serialize/Deserialize agree on the field table (buf, index). (A01w) the constructors reach only documented panics and '
-                     'deserialize none.'),
-        not_decided=['that push / slice_index / newest / the iterator cursor arithmetic select the right slot for every rotation phase '
-                     '(modular arithmetic on runtime values; needs a solver or model checker): not decided',
+                     'deserialize none. (A04) inductive representation invariant (buf.len == size, s_1 == size-1, index < size; iterator cursor < size, '
+                     'remaining <= size): established by every constructor, preserved by push and by both iterators\' next, and under it no method '
+                     'can fail a bounds or overflow check; slice_index only returns slots < size; get on an empty window is None.'),
+        not_decided=['that push / slice_index / newest / the iterator cursors select the RIGHT slot for every rotation phase (which element a slot holds is '
+                     'modular arithmetic on runtime values; needs a solver or model checker): not decided. A04 decides only that every slot they '
+                     'compute is inside the buffer and that the representation invariant is inductive',
                      'S01c is a sibling-agreement rule: a correct re-implementation of the index->slot mapping outside slice_index would be reported'],
         assumptions=TRUST,
         technique='static analysis: per-path remaining-count discipline on MIR (typestate-like), writer/reader table agreement',
